@@ -56,7 +56,11 @@ impl Projector {
             }
             Node::Quote() => {
                 if let Some(child) = iter.child() {
-                    blocks.push(GraphBlock::BlockQuote(self.with(0).project_node(child)));
+                    // (a quote that holds only empty quotes has nothing to write)
+                    let quoted = self.with(0).project_node(child);
+                    if !quoted.is_empty() {
+                        blocks.push(GraphBlock::BlockQuote(quoted));
+                    }
                 }
             }
             Node::BulletList() => {
